@@ -38,8 +38,14 @@ func fail(f string, a ...interface{}) { broken = append(broken, fmt.Sprintf(f, a
 
 type stubImporter struct{ def types.Importer }
 
+// packages of the module already type-checked by load, by directory base name
+var loaded = map[string]*types.Package{}
+
 func (s stubImporter) Import(path string) (*types.Package, error) {
 	if p, err := s.def.Import(path); err == nil {
+		return p, nil
+	}
+	if p := loaded[filepath.Base(path)]; p != nil && strings.Contains(path, "/internal/") {
 		return p, nil
 	}
 	// module-internal packages: a stub is enough, constants we read are package-local
@@ -73,6 +79,9 @@ func load(dir string, skip func(string) bool) *pkgInfo {
 	conf := types.Config{Importer: stubImporter{importer.Default()}, Error: func(error) {}}
 	p.info = &types.Info{Defs: map[*ast.Ident]types.Object{}, Uses: map[*ast.Ident]types.Object{}, Types: map[ast.Expr]types.TypeAndValue{}}
 	p.pkg, _ = conf.Check(dir, fset, p.files, p.info)
+	if p.pkg != nil && strings.Contains(dir, "/internal/") {
+		loaded[filepath.Base(dir)] = p.pkg
+	}
 	return p
 }
 
@@ -144,6 +153,9 @@ func (p *pkgInfo) src(n ast.Node) string {
 // ---- expression translation (unsigned wrap-around arithmetic) ----
 
 func leanType(t types.Type) string {
+	if t == nil {
+		return "?nil"
+	}
 	switch u := t.Underlying().(type) {
 	case *types.Basic:
 		switch u.Kind() {
@@ -176,6 +188,8 @@ func (p *pkgInfo) tr(e ast.Expr) string {
 	switch x := e.(type) {
 	case *ast.ParenExpr:
 		return p.tr(x.X)
+	case *ast.StarExpr: // a pointer receiver is the value it points to (setters return the new value)
+		return p.tr(x.X)
 	case *ast.Ident:
 		return x.Name
 	case *ast.BasicLit:
@@ -185,7 +199,7 @@ func (p *pkgInfo) tr(e ast.Expr) string {
 		op := map[token.Token]string{token.SHL: "<<<", token.SHR: ">>>", token.OR: "|||", token.AND: "&&&", token.XOR: "^^^",
 			token.ADD: "+", token.SUB: "-", token.MUL: "*", token.QUO: "/", token.NEQ: "!=", token.EQL: "==", token.GTR: ">", token.LSS: "<", token.GEQ: "≥", token.LEQ: "≤"}[x.Op]
 		if x.Op == token.AND_NOT {
-			return fmt.Sprintf("(%s &&& ~~~(%s))", l, r)
+			return fmt.Sprintf("(%s &&& ~~~(%s : %s))", l, r, leanType(p.info.Types[x].Type))
 		}
 		if op == "" {
 			fail("untranslatable operator %s in %s", x.Op, p.src(e))
@@ -200,6 +214,12 @@ func (p *pkgInfo) tr(e ast.Expr) string {
 			a := p.tr(x.Args[0])
 			if from == to {
 				return a
+			}
+			if to == "Int" { // int(uintN): value preserving
+				return fmt.Sprintf("((%s).toNat : Int)", a)
+			}
+			if from == "Int" { // uintN(int): two's complement truncation
+				return fmt.Sprintf("(%s.emod %d).toNat.to%s", a, map[string]uint64{"UInt8": 1 << 8, "UInt16": 1 << 16, "UInt32": 1 << 32}[to], to)
 			}
 			return fmt.Sprintf("(%s).to%s", a, to)
 		}
@@ -244,6 +264,89 @@ func (p *pkgInfo) leaf(goName, leanName string) string {
 	}
 	rt := leanType(p.info.Types[fd.Type.Results.List[0].Type].Type)
 	return fmt.Sprintf("def %s %s : %s := %s\n", leanName, strings.Join(params, " "), rt, p.tr(ret.Results[0]))
+}
+
+// setter translates the two shapes of the generated bit-field setters of frame_gen.go into a function returning
+// the new value of the receiver:
+//
+//	func (x *T) S(v bool) *T { const b = …; if v { *x = E1 } else { *x &^= b }; return x }
+//	func (x *T) S(v V) *T    { *x = E; return x }
+func (p *pkgInfo) setter(goName, leanName string) string {
+	fd := p.findFunc(goName)
+	if fd == nil || fd.Recv == nil {
+		fail("setter %s not found in %s", goName, p.dir)
+		return ""
+	}
+	bad := func() string { fail("setter %s no longer has one of the two generated shapes", goName); return "" }
+	recv := fd.Recv.List[0]
+	star, ok := recv.Type.(*ast.StarExpr)
+	if !ok || len(recv.Names) != 1 || len(fd.Type.Params.List) != 1 || len(fd.Type.Params.List[0].Names) != 1 {
+		return bad()
+	}
+	x := recv.Names[0].Name
+	rt := leanType(p.info.Types[star.X].Type)
+	v := fd.Type.Params.List[0].Names[0].Name
+	vt := leanType(p.info.Types[fd.Type.Params.List[0].Type].Type)
+	isX := func(e ast.Expr) bool {
+		s, ok := e.(*ast.StarExpr)
+		if !ok {
+			return false
+		}
+		id, ok := s.X.(*ast.Ident)
+		return ok && id.Name == x
+	}
+	// value of `*x` after an assignment statement
+	assign := func(st ast.Stmt) (string, bool) {
+		a, ok := st.(*ast.AssignStmt)
+		if !ok || len(a.Lhs) != 1 || len(a.Rhs) != 1 || !isX(a.Lhs[0]) {
+			return "", false
+		}
+		switch a.Tok {
+		case token.ASSIGN:
+			return p.tr(a.Rhs[0]), true
+		case token.AND_NOT_ASSIGN:
+			return fmt.Sprintf("(%s &&& ~~~(%s : %s))", x, p.tr(a.Rhs[0]), rt), true
+		}
+		return "", false
+	}
+	var body []ast.Stmt
+	for _, st := range fd.Body.List {
+		if _, ok := st.(*ast.DeclStmt); !ok {
+			body = append(body, st)
+		}
+	}
+	if len(body) != 2 {
+		return bad()
+	}
+	if r, ok := body[1].(*ast.ReturnStmt); !ok || len(r.Results) != 1 {
+		return bad()
+	} else if id, ok := r.Results[0].(*ast.Ident); !ok || id.Name != x {
+		return bad()
+	}
+	var expr string
+	switch st := body[0].(type) {
+	case *ast.AssignStmt:
+		e, ok := assign(st)
+		if !ok {
+			return bad()
+		}
+		expr = e
+	case *ast.IfStmt:
+		c, ok := st.Cond.(*ast.Ident)
+		els, ok2 := st.Else.(*ast.BlockStmt)
+		if !ok || !ok2 || c.Name != v || vt != "Bool" || st.Init != nil || len(st.Body.List) != 1 || len(els.List) != 1 {
+			return bad()
+		}
+		a, ok := assign(st.Body.List[0])
+		b, ok2 := assign(els.List[0])
+		if !ok || !ok2 {
+			return bad()
+		}
+		expr = fmt.Sprintf("if %s then %s else %s", v, a, b)
+	default:
+		return bad()
+	}
+	return fmt.Sprintf("def %s (%s : %s) (%s : %s) : %s := %s\n", leanName, x, rt, v, vt, rt, expr)
 }
 
 type constSpec struct{ lean, goName, fn string }
@@ -306,6 +409,14 @@ func main() {
 			l.WriteString(strm.leaf("DescriptorFlags."+n, "flag"+n))
 		}
 		l.WriteString(strm.leaf("DataBlockSize.Uncompressed", "dbsUncompressed"))
+		l.WriteString(strm.leaf("DescriptorFlags.BlockSizeIndex", "flagBlockSizeIndex"))
+		l.WriteString(strm.leaf("DataBlockSize.size", "dbsSize"))
+		l.WriteString("-- internal/lz4stream/frame_gen.go (setters: the new value of the receiver)\n")
+		for _, n := range []string{"ContentChecksum", "Size", "BlockChecksum", "BlockIndependence", "Version", "BlockSizeIndex"} {
+			l.WriteString(strm.setter("DescriptorFlags."+n+"Set", "set"+n))
+		}
+		l.WriteString(strm.setter("DataBlockSize.sizeSet", "dbsSetSize"))
+		l.WriteString(strm.setter("DataBlockSize.UncompressedSet", "dbsSetUncompressed"))
 	}
 	l.WriteString("end Lz4V.Gen\n")
 
